@@ -10,47 +10,67 @@ Definition DB : bytes := [36; 123]%N.   (* "${" *)
 Definition RB : bytes := [125]%N.       (* "}"  *)
 
 (* ------------------------------------------------------------------ model *)
-(* The Go function threads a map through the recursion; the model returns the assignments
-   patches[name] = value in the order they are executed (oldest first); the map is "last write wins"
-   (GoBytes.lookup_last). Every slice expression of the Go text goes through GoBytes.slice*.
+(* The Go function threads a map through the recursion and (since the fix) reads it: the model threads
+   the assignments patches[name] = value in the order they are executed (oldest first); the map is
+   "last write wins" (GoBytes.lookup_last). Every slice expression of the Go text goes through
+   GoBytes.slice*, guarded exactly as the Go text guards it.
 
    func generatePropertyPatchesAux(s1, s2 string, patches map[string]string) bool {
      start := strings.Index(s1, "${")
-     if s1[:start] != s2[:start] { return false }
+     if start < 0 || start > len(s2) || s1[:start] != s2[:start] { return false }
      end := strings.Index(s1, "}")
+     if end < start+2 { return false }
+     set := func(name, value string) bool {
+       if preset, ok := patches[name]; ok && preset != value { return false }
+       patches[name] = value
+       return true
+     }
      next := strings.Index(s1[end+1:], "${")
      if next < 0 {
        remainder := s1[end+1:]
-       if remainder == s2[len(s2)-len(remainder):] {
-         patches[s1[start+2:end]] = s2[start : len(s2)-len(remainder)]
-         return true
+       if len(remainder) <= len(s2)-start && remainder == s2[len(s2)-len(remainder):] {
+         return set(s1[start+2:end], s2[start:len(s2)-len(remainder)])
        }
      } else if match := strings.Index(s2[start:], s1[end+1:end+1+next]); match > 0 {
-       patches[s1[start+2:end]] = s2[start : start+match]
+       if !set(s1[start+2:end], s2[start:start+match]) { return false }
        return generatePropertyPatchesAux(s1[end+1:], s2[start+match:], patches)
      }
      return false
    } *)
 Definition assignments := list (bytes * bytes).
 
-Fixpoint gpp_aux (fuel : nat) (s1 s2 : bytes) : Outcome (assignments * bool) :=
+(* set: None = conflicting value for a property that already has one (map left unchanged) *)
+Definition pset (name v : bytes) (acc : assignments) : option assignments :=
+  match lookup_last name acc with
+  | Some pre => if beq pre v then Some (acc ++ [(name, v)]) else None
+  | None => Some (acc ++ [(name, v)])
+  end.
+
+Fixpoint gpp_aux (fuel : nat) (s1 s2 : bytes) (acc : assignments) : Outcome (assignments * bool) :=
   match fuel with
   | O => OutOfFuel
   | S fuel' =>
     let start := index DB s1 in
+    if (start <? 0) || (len s2 <? start) then Ok (acc, false) else
     p1 <- slice_to s1 start ;;
     p2 <- slice_to s2 start ;;
-    if negb (beq p1 p2) then Ok ([], false) else
+    if negb (beq p1 p2) then Ok (acc, false) else
     let e := index RB s1 in
+    if e <? start + 2 then Ok (acc, false) else
     t <- slice_from s1 (e + 1) ;;
     let next := index DB t in
     if next <? 0 then
-      sfx <- slice_from s2 (len s2 - len t) ;;
-      if beq t sfx then
-        name <- slice s1 (start + 2) e ;;
-        v <- slice s2 start (len s2 - len t) ;;
-        Ok ([(name, v)], true)
-      else Ok ([], false)
+      if len t <=? len s2 - start then
+        sfx <- slice_from s2 (len s2 - len t) ;;
+        if beq t sfx then
+          name <- slice s1 (start + 2) e ;;
+          v <- slice s2 start (len s2 - len t) ;;
+          match pset name v acc with
+          | Some acc' => Ok (acc', true)
+          | None => Ok (acc, false)
+          end
+        else Ok (acc, false)
+      else Ok (acc, false)
     else
       needle <- slice s1 (e + 1) (e + 1 + next) ;;
       h <- slice_from s2 start ;;
@@ -58,19 +78,19 @@ Fixpoint gpp_aux (fuel : nat) (s1 s2 : bytes) : Outcome (assignments * bool) :=
       if 0 <? m then
         name <- slice s1 (start + 2) e ;;
         v <- slice s2 start (start + m) ;;
-        s1' <- slice_from s1 (e + 1) ;;
-        s2' <- slice_from s2 (start + m) ;;
-        match gpp_aux fuel' s1' s2' with
-        | Ok (asg, ok) => Ok ((name, v) :: asg, ok)
-        | Panic => Panic
-        | OutOfFuel => OutOfFuel
+        match pset name v acc with
+        | None => Ok (acc, false)
+        | Some acc' =>
+          s1' <- slice_from s1 (e + 1) ;;
+          s2' <- slice_from s2 (start + m) ;;
+          gpp_aux fuel' s1' s2' acc'
         end
-      else Ok ([], false)
+      else Ok (acc, false)
   end.
 
 (* generatePropertyPatches(s1, s2) *)
 Definition generate_property_patches (s1 s2 : bytes) : Outcome (assignments * bool) :=
-  gpp_aux (S (length s1)) s1 s2.
+  gpp_aux (S (length s1)) s1 s2 [].
 
 (* ------------------------------------------------------------------ spec *)
 (* Character scanner for Maven placeholders: "${" name "}" where the name runs to the first "}".
@@ -127,28 +147,6 @@ Definition subst (props : assignments) (s : bytes) : bytes :=
 
 Definition names (s : bytes) : list bytes := map snd (fst (parse s)).
 
-(* domain of the soundness theorem: no placeholder name occurs twice *)
-Definition d_sound (s1 : bytes) : bool := nodupb (names s1).
-
-(* domain of the no-panic theorem: s1 is a well-formed template (at least one placeholder, no "}" in
-   the literal text before the last placeholder ends, no unclosed "${" after it), the literal prefix fits
-   into s2, and either the template ends with a placeholder, or it has a single placeholder and
-   prefix + suffix fit into s2 *)
-Definition no_rb (l : bytes) : bool := negb (existsb (N.eqb 125) l).
-
-Definition d_total (s1 s2 : bytes) : bool :=
-  match fst (parse s1) with
-  | [] => false
-  | (l0, _) :: t =>
-    forallb (fun ln => no_rb (fst ln)) (fst (parse s1)) &&
-    negb (contains DB (snd (parse s1))) &&
-    (len l0 <=? len s2) &&
-    match snd (parse s1) with
-    | [] => true
-    | rem => match t with [] => len l0 + len rem <=? len s2 | _ => false end
-    end
-  end.
-
 (* ------------------------------------------------------------------ correspondence record *)
 Inductive pobs :=
 | PObsPanic
@@ -167,20 +165,16 @@ Definition pcase_model_ok (c : pcase) : bool :=
   | _, _ => false
   end.
 
-(* the property, evaluated on what the implementation returned, claimed on the domains only:
+(* the property, evaluated on what the implementation returned, at full strength:
    no panic; when it reports success the returned property values turn s1 into s2 *)
-Definition pcase_spec_ok (c : pcase) : bool :=
-  (negb (d_total (pc_s1 c) (pc_s2 c)) || match pc_obs c with PObsPanic => false | _ => true end) &&
-  (negb (d_sound (pc_s1 c)) ||
-   match pc_obs c with
-   | PObsRes true m => beq (subst m (pc_s1 c)) (pc_s2 c)
-   | _ => true
-   end).
-
-(* the same without the domain restriction (used to recognise known findings) *)
 Definition pcase_spec_full (c : pcase) : bool :=
   match pc_obs c with
   | PObsPanic => false
   | PObsRes true m => beq (subst m (pc_s1 c)) (pc_s2 c)
   | PObsRes false _ => true
   end.
+
+Definition pcase_spec_ok (c : pcase) : bool := pcase_spec_full c.
+
+(* non-triviality counters for the evidence *)
+Definition has_placeholder (s1 : bytes) : bool := match fst (parse s1) with [] => false | _ => true end.
